@@ -18,4 +18,22 @@ void c_destruction(void)
   __CPROVER_assert(expect, "REACH destruction.unexpected"); __CPROVER_assert(!expect, "REACH destruction.expected");
   __CPROVER_assert(0, "REACH! c_destruction");
 }
+/* C05 / C13: REQUIRE_DESTRUCTION(...).IN_SEQUENCE(s) behind REQUIRE_CALL(m, g()).IN_SEQUENCE(s) */
+void c_seq_destruction(void)
+{
+  _Bool early = nondet_bool(); struct OBS o;
+  C13_SEQ(early, &o);
+  __CPROVER_assert(o.x == 0, "[C06] POST seqdestr.the_sequence_is_not_completed_while_both_steps_are_pending");
+  __CPROVER_assert(o.ret == 1, "[C05,C13] POST seqdestr.the_destruction_counts_as_having_happened_in_or_out_of_order");
+  __CPROVER_assert(o.y == 1, "[C06] POST seqdestr.afterwards_nothing_is_pending_in_the_sequence");
+  if (!early) __CPROVER_assert(vp_rep_n == 0, "[C05,C13] POST seqdestr.in_order_nothing_is_reported");
+  else {
+    /* out of order: the destruction is one non-fatal sequence report; the passed-over call can never match again, so its
+       expectation is reported once (non-fatally) when its lifetime ends */
+    __CPROVER_assert(vp_rep_n == 2 && vp_rep[0].sev == 1 && vp_rep[1].sev == 1, "[C05,C15] POST seqdestr.out_of_order_is_reported_non_fatally_once_and_the_passed_over_expectation_once_at_its_end");
+  }
+  __CPROVER_assert(vp_exc == 0 && !vp_terminated, "[C15] POST seqdestr.nothing_throws_out_of_a_destructor");
+  __CPROVER_assert(early, "REACH seqdestr.in_order"); __CPROVER_assert(!early, "REACH seqdestr.early");
+  __CPROVER_assert(0, "REACH! c_seq_destruction");
+}
 int main(void) { VP_ENTRY(); return 0; }
